@@ -938,7 +938,8 @@ def mon_C04(case):
             for q in sorted(set(want) - set(got)):
                 out.append((i, f"C04 history of {t} for {act[0]} lacks message {q} which is stored, in range and not deleted for this user"))
             for q in set(got) & set(want):
-                sender = "-" if i in case.via_chn else want[q]["sender"]     # the author is withheld from channel readers
+                rdr = (pre.cache.get(t, {}).get("users", {}).get(act[0], {}).get("chan") if pre else False)
+                sender = "-" if (i in case.via_chn or rdr) else want[q]["sender"]     # the author is withheld from channel readers
                 if got[q].get("content") != want[q]["content"] or got[q].get("from") != sender or \
                         got[q].get("head", "-").replace("=", "=") != want[q]["head"]:
                     out.append((i, f"C04 message {q} of {t} returned as from={got[q].get('from')} head={got[q].get('head')} content={got[q].get('content')} "
